@@ -143,8 +143,10 @@ static void gen_c12(Plan& p, Rng& r) {
             static const char* kinds[] = {"fd_write", "fd_write", "fd_pwrite", "fd_read", "fd_read", "fd_pread"};
             Op o = mkop(kinds[r.below(6)], r); o.n["fd_live"] = r.below(8); o.iov = gen_iov(r);
             if (o.name == "fd_pwrite" || o.name == "fd_pread") {
-                static const int64_t offs[] = {0, 1, 5, 100, 4095, 8192, 70000, (1ll << 32), (1ll << 32) + 77, (1ll << 33) - 5, (1ll << 31)};
-                o.n["off"] = offs[r.below(r.below(4) == 0 ? 11 : 7)];
+                // the offset is an unsigned 64-bit number: values from 2^63 up are negative as off_t and must be refused like POSIX does
+                static const int64_t offs[] = {0, 1, 5, 100, 4095, 8192, 70000, (1ll << 32), (1ll << 32) + 77, (1ll << 33) - 5, (1ll << 31),
+                                               (int64_t)0x8000000000000000ull, -1, (int64_t)0x8000000000000005ull, -4096, (int64_t)0x7FFFFFFFFFFFFFFFll};
+                o.n["off"] = offs[r.below(r.below(4) == 0 ? 16 : 7)];
             }
             if (faults && r.below(3) == 0) {
                 bool wr = o.name == "fd_write" || o.name == "fd_pwrite"; uint64_t tot = 0; for (uint32_t l : o.iov) tot += l;
